@@ -197,7 +197,10 @@ def _loads_xml(string):
 
             ephem = []
             orbit_mapping = {}
-            for statevector in data_tag["stateVector"]:
+            statevectors = data_tag["stateVector"]
+            if isinstance(statevectors, dict):
+                statevectors = [statevectors]
+            for statevector in statevectors:
                 orb = StateVector(
                     [
                         decode_unit(statevector, "X", "km"),
@@ -216,7 +219,10 @@ def _loads_xml(string):
                 ephem.append(orb)
                 orbit_mapping[orb.date] = orb
 
-            for cov in data_tag.get("covarianceMatrix", []):
+            covs = data_tag.get("covarianceMatrix", [])
+            if isinstance(covs, dict):
+                covs = [covs]
+            for cov in covs:
                 date = parse_date(cov["EPOCH"].text, metadata["TIME_SYSTEM"].text)
                 if date in orbit_mapping:
                     orb = orbit_mapping[date]
